@@ -54,9 +54,6 @@ class FieldArrayModel(FieldCompositeModel):
         self._set_size(len(self.field_l))
         fm.is_declared_rand = self.is_declared_rand
         fm.rand_mode = self.is_declared_rand
-        # An object appended while the array is being randomized 
-        # (from pre_randomize) is random in that call too
-        fm.set_used_rand(self.is_used_rand, 1)
         self.name_elems()
         
     def clear(self):
